@@ -374,6 +374,10 @@ func (in *inliner) conv(list []ast.Stmt, lhs []string, s *inlSite) rope {
 					allBlank = false
 				}
 			}
+			if len(lhs) == 1 && len(t.Results) == 1 && flatten(in.exprText(t.Results[0])) == lhs[0] {
+				// x = x: the result is the target itself
+				return out
+			}
 			if len(lhs) > 0 && len(t.Results) > 0 && !allBlank {
 				out = append(out, glue(strings.Join(lhs, ", ")+" = ", t.Pos(), s.id)...)
 				for j, r := range t.Results {
@@ -792,6 +796,12 @@ func (in *inliner) emitSite0(s *inlSite) (rope, bool) {
 	g := func(f string, a ...any) rope { return glue(fmt.Sprintf(f, a...), at, s.id) }
 	var out rope
 
+	var sig *types.Signature
+	if s.lit != nil {
+		sig, _ = info.TypeOf(s.lit).(*types.Signature)
+	} else {
+		sig = s.callee.Obj.Type().(*types.Signature)
+	}
 	// ---- bindings ----
 	type bind struct {
 		name, typ string
@@ -922,8 +932,55 @@ func (in *inliner) emitSite0(s *inlSite) (rope, bool) {
 			return false
 		}
 		po := info.Defs[param]
-		if po == nil || mutated[po] {
+		if po == nil {
 			return false
+		}
+		if mutated[po] {
+			// accumulator: x = h(x, …) where every return of h returns that parameter — updating
+			// the caller's variable in place is the same as assigning the result back
+			aid, isId := ast.Unparen(arg).(*ast.Ident)
+			if !isId || inLit[po] || sig == nil || sig.Results().Len() != 1 {
+				return false
+			}
+			switch s.form {
+			case formAssign:
+				as, isAs := s.stmt.(*ast.AssignStmt)
+				if !isAs || len(as.Lhs) != 1 || as.Tok != token.ASSIGN {
+					return false
+				}
+				lid, ok := as.Lhs[0].(*ast.Ident)
+				if !ok || info.Uses[lid] == nil || info.Uses[lid] != info.Uses[aid] {
+					return false
+				}
+			case formReturn:
+				// `return h(x, …)`: x is dead after the statement
+				if in.assigns(s.caller)[info.Uses[aid]] >= 2 && false {
+					return false
+				}
+			default:
+				return false
+			}
+			allSame := true
+			ast.Inspect(body, func(m ast.Node) bool {
+				switch t := m.(type) {
+				case *ast.FuncLit:
+					return false
+				case *ast.ReturnStmt:
+					if len(t.Results) != 1 {
+						allSame = false
+					} else if rid, ok := ast.Unparen(t.Results[0]).(*ast.Ident); !ok || info.Uses[rid] != po {
+						allSame = false
+					}
+				case *ast.UnaryExpr:
+					if id, ok := ast.Unparen(t.X).(*ast.Ident); ok && t.Op == token.AND && info.Uses[id] == po {
+						allSame = false
+					}
+				}
+				return allSame
+			})
+			if !allSame {
+				return false
+			}
 		}
 		// root identifier and the field objects of a selector path a.b.c
 		x := ast.Unparen(arg)
@@ -943,9 +1000,23 @@ func (in *inliner) emitSite0(s *inlSite) (rope, bool) {
 		if !ok || id.Name == "_" {
 			return false
 		}
-		ao, ok := info.Uses[id].(*types.Var)
-		if !ok || ao.IsField() || ao.Parent() == nil || ao.Parent() == ao.Pkg().Scope() {
-			return false // only function-local variables and parameters
+		var ao types.Object
+		switch o := info.Uses[id].(type) {
+		case *types.Var:
+			if o.IsField() || o.Parent() == nil {
+				return false
+			}
+			if o.Parent() == o.Pkg().Scope() && (len(fields) > 0 || o.Pkg() != s.caller.Pkg.Types) {
+				return false
+			}
+			ao = o
+		case *types.Const:
+			if o.Pkg() != s.caller.Pkg.Types || len(fields) > 0 || !types.Identical(o.Type(), ptype) {
+				return false
+			}
+			ao = o
+		default:
+			return false
 		}
 		if at := info.TypeOf(arg); at == nil || !types.Identical(at, ptype) {
 			return false
@@ -1024,12 +1095,6 @@ func (in *inliner) emitSite0(s *inlSite) (rope, bool) {
 			}
 			binds = append(binds, bind{name, typeStr(rt, q), val, sel.X})
 		}
-	}
-	var sig *types.Signature
-	if s.lit != nil {
-		sig, _ = info.TypeOf(s.lit).(*types.Signature)
-	} else {
-		sig = s.callee.Obj.Type().(*types.Signature)
 	}
 	if sig == nil || sig.Params().Len() != len(s.call.Args) {
 		return nil, false
